@@ -72,7 +72,15 @@ fn project_impl(it: &syn::ItemImpl) -> Value {
             _ => other += 1,
         }
     }
-    json!({"trait": trait_path, "trait_args": trait_args, "self_ref": self_ref, "self_lt": self_lt, "self_ty": self_ty,
+    // vocabulary of the whole item (header + body): every path, and every name the item binds itself
+    let mut whole = Vocab::default();
+    whole.visit_item_impl(it);
+    for f in it.items.iter() { if let syn::ImplItem::Fn(f) = f { for a in &f.sig.inputs { if let syn::FnArg::Typed(p) = a { whole.visit_pat(&p.pat); } } } }
+    whole.bound.insert("self".into());
+    for p in it.generics.params.iter() { match p { syn::GenericParam::Type(t) => { whole.bound.insert(t.ident.to_string()); }, syn::GenericParam::Const(c) => { whole.bound.insert(c.ident.to_string()); }, _ => {} } }
+    let all_paths: Vec<&String> = whole.paths.iter().collect();
+    let all_bound: Vec<&String> = whole.bound.iter().collect();
+    json!({"all_paths": all_paths, "all_bound": all_bound, "trait": trait_path, "trait_args": trait_args, "self_ref": self_ref, "self_lt": self_lt, "self_ty": self_ty,
            "gens": gens, "where": wh, "impl_attrs": impl_attrs, "assoc": assoc, "fns": fns, "other_items": other, "str": ts(it)})
 }
 
